@@ -14,6 +14,7 @@ import io
 import json
 import wsgiref.util
 import wsgiref.validate
+from lxml import etree
 
 from vf import tagged, harness, spec, drv, universe
 from vf.mc import tlc
@@ -61,7 +62,141 @@ def shards(tier):
         for chunked in (True, False):
             for i in range(0, len(m['behaviours']), per):
                 out.append({'fam': fam, 'chunked': chunked, 'lo': i, 'behaviours': m['behaviours'][i:i + per], 'tier': tier})
+    for bp in BODY_PROTOS:
+        for chunked in (True, False):
+            out.append({'kind': 'bodies', 'proto': bp, 'chunked': chunked, 'tier': tier})
     return out
+
+
+# ---- response bodies: every way user code can hand over a byte-string or streamed result x out protocol x chunked
+BODY_FORMS = ['list', 'tuple', 'generator', 'iter', 'chain', 'map', 'one-chunk', 'empty-list', 'generator-empty-chunks']
+BODY_PROTOS = ['http-bytes', 'json-iter', 'soap11-iter', 'jsonp-iter']
+
+
+def body_program():
+    BA = ['p', 'ByteArray', {}]
+    return {'tns': TNS, 'classes': [], 'services': [{'n': 'S', 'methods': [{'n': 'b', 'args': [['a', I]], 'ret': BA},
+                                                                             {'n': 'g', 'args': [['a', I]], 'ret': ['it', I, {}]}]}]}
+
+
+def body_result(form, items):
+    """-> script for the recorder: the user function hands `items` over in the given form"""
+    import itertools as _it
+    if form == 'list':
+        return ('call', lambda ctx, a: list(items))
+    if form == 'tuple':
+        return ('call', lambda ctx, a: tuple(items))
+    if form == 'generator':
+        return ('gen', list(items))
+    if form == 'iter':
+        return ('call', lambda ctx, a: iter(list(items)))
+    if form == 'chain':
+        return ('call', lambda ctx, a: _it.chain(items[:1], items[1:]))
+    if form == 'map':
+        return ('call', lambda ctx, a: map(lambda x: x, list(items)))
+    if form == 'one-chunk':
+        return ('call', lambda ctx, a: [items[0]])
+    if form == 'empty-list':
+        return ('call', lambda ctx, a: [])
+    if form == 'generator-empty-chunks':
+        return ('gen', [items[0], items[0][:0] if isinstance(items[0], bytes) else items[0], items[-1]])
+    raise KeyError(form)
+
+
+def run_bodies(shard, res, only=None):
+    from spyne.server.wsgi import WsgiApplication
+    bp, chunked = shard['proto'], shard['chunked']
+    for form in BODY_FORMS:
+        for abort in (9, 0, 1):
+            key = [form, abort]
+            if only is not None and only != key:
+                continue
+            prog = body_program()
+            if bp == 'http-bytes':
+                h = harness.HttpHarness(prog)
+                items, mname = [b'alpha-', b'beta-', b'gamma'], 'b'
+            else:
+                out = bp.split('-')[0]
+                if out == 'jsonp':
+                    from spyne.protocol.json import JsonP
+                    b0 = spec.build(prog)
+                    app = spec.make_app(b0, harness.make_proto('http'), JsonP('cb'))
+                    h = type('H', (), {'b': b0, 'app': app})()
+                else:
+                    h = harness.HttpHarness(prog, out=out)
+                items, mname = [1, 2, 3], 'g'
+            b = h.b
+            b.rec.reset()
+            b.rec.script[mname] = body_result(form, items)
+            wa = WsgiApplication(h.app, chunked=chunked)
+            trace = []
+            h.app.event_manager.add_listener('method_context_closed', lambda ctx: trace.append(('CTXCLOSED',)))
+            env = drv.environ('GET', '/' + mname, 'a=5', b'', content_type=None, content_length=None)
+            wsgiref.util.setup_testing_defaults(env)
+            env['PATH_INFO'] = '/' + mname
+            env['QUERY_STRING'] = 'a=5'
+            res['evaluations'] += 1
+            casedoc = {'shard': shard, 'only': key}
+
+            def V(kind_, detail, what):
+                res['violations'].append({'sig': 'C13|body-%s|%s|%s|%s' % (kind_, bp + (',chunked' if chunked else ',unchunked'), form, detail),
+                                          'what': '[%s chunked=%s result handed over as %s, client abort after %s chunks] %s' % (bp, chunked, form, 'all' if abort == 9 else abort, what),
+                                          'case': casedoc, 'count': 1})
+            try:
+                o = drv.call_wsgi(wsgiref.validate.validator(wa), env, abort_after=None if abort == 9 else abort, trace=trace)
+            except Exception as e:
+                V('validator', type(e).__name__, 'wsgiref.validate / driver raised %r' % (e,))
+                continue
+            if o.escaped is not None:
+                V('escape', '%s@%s' % (type(o.escaped).__name__, o.escaped_where), 'exception out of the WSGI callable / validator: %r; trace %s' % (o.escaped, trace))
+                continue
+            ok = True
+            if o.start_calls != 1 or [t[0] for t in trace].index('START') > min([i for i, t in enumerate(trace) if t[0] == 'CHUNK'] + [len(trace)]):
+                V('start-response', str(o.start_calls), 'start_response called %d times / after a chunk: %s' % (o.start_calls, trace))
+                ok = False
+            if [t[0] for t in trace].count('CTXCLOSED') != 1:
+                V('context-closed', str([t[0] for t in trace].count('CTXCLOSED')), 'context closed %d times: %s' % ([t[0] for t in trace].count('CTXCLOSED'), trace))
+                ok = False
+            elif abort == 9 and 'CHUNK' in [t[0] for t in trace] and [t[0] for t in trace].index('CTXCLOSED') < max(i for i, t in enumerate(trace) if t[0] == 'CHUNK'):
+                V('context-closed', 'before-last-chunk', 'context closed before the body was handed over: %s' % (trace,))
+                ok = False
+            if any(not isinstance(c, bytes) for c in o.chunks or []):
+                V('chunk-type', '', 'body chunks %r' % ([type(c).__name__ for c in o.chunks],))
+                ok = False
+            hd = dict((k.lower(), v) for k, v in (o.headers or []))
+            if abort == 9 and o.out is not None:
+                if 'content-length' in hd and int(hd['content-length']) != len(o.out):
+                    V('content-length', '', 'Content-Length %s, body has %d bytes (%r)' % (hd['content-length'], len(o.out), o.out[:60]))
+                    ok = False
+                if not (o.status or '').startswith('200'):
+                    V('status', (o.status or '')[:3], 'status %r, body %r' % (o.status, o.out[:200]))
+                    ok = False
+                elif bp == 'http-bytes':
+                    want = b'' if form == 'empty-list' else items[0] if form == 'one-chunk' else items[0] + items[-1] if form == 'generator-empty-chunks' else b''.join(items)
+                    if o.out != want:
+                        V('body', '', 'function handed over %r, body is %r' % (want, o.out[:200]))
+                        ok = False
+                else:
+                    want = [] if form == 'empty-list' else items[:1] if form == 'one-chunk' else [items[0], items[0], items[-1]] if form == 'generator-empty-chunks' else items
+                    txt = o.out.decode('utf8')
+                    try:
+                        if bp.startswith('soap11'):
+                            got = [int(e.text) for e in etree.fromstring(o.out).iter() if isinstance(e.tag, str) and e.tag.endswith('}integer')]
+                        else:
+                            j = txt[txt.index('(') + 1:txt.rindex(')')] if bp.startswith('jsonp') else txt
+                            got = json.loads(j)
+                            while isinstance(got, dict) and len(got) == 1:
+                                got = list(got.values())[0]
+                            got = [] if got in (None, {}) else got
+                    except Exception as e:
+                        got = 'undecodable: %r' % (e,)
+                    if got != want:
+                        V('body', '', 'function handed over %r, body %r denotes %r' % (want, o.out[:200], got))
+                        ok = False
+            res['cov']['body_forms'] = res['cov'].get('body_forms', 0) + 1
+            res['outcomes']['conforms' if ok else 'differs'] = res['outcomes'].get('conforms' if ok else 'differs', 0) + 1
+            if ok:
+                res['nontrivial'] += 1
 
 
 def finish(tier, agg):
@@ -177,6 +312,10 @@ def collapse(tr):
 
 def run_shard(shard, only=None):
     res = {'evaluations': 0, 'nontrivial': 0, 'outcomes': {}, 'violations': [], 'samples': [], 'cov': {'replays': 0}, 'notes': {}}
+    if shard.get('kind') == 'bodies':
+        run_bodies(shard, res, only)
+        from vf.props.c01 import compress
+        return compress(res)
     fam, chunked = shard['fam'], shard['chunked']
     for bi, beh in enumerate(shard['behaviours']):
         if only is not None and only != bi:
